@@ -22,6 +22,7 @@ Line protocol of the C08 model (fast fields / columnar).
   shuffle <order> <inputs>           -> rows of read(mergeShuffled); order `seg:row,seg:row`,
                                         inputs separated by `/`, each `~n` (missing, n docs) or rows
   stack <inputs>                     -> rows of read(mergeStacked)
+  colrange <lo> <hi> <s> <e> <rows>  -> Column::get_docids_for_value_range on the written column
   inrange <lo> <hi> <rows>           -> docsInRange
 -/
 namespace TantivyModel.Driver.C08
@@ -176,6 +177,12 @@ def handle : List String → String
     match parseInputs inputs with
     | some ins => let m := mergeStacked ins; showRows (read m.1 m.2)
     | none => "bad-op"
+  | ["colrange", lo, hi, st, en, rows] =>
+    match lo.toNat?, hi.toNat?, st.toNat?, en.toNat?, parseRows rows with
+    | some lo, some hi, some st, some en, some rows =>
+      let e := writerEncode rows
+      showNatList (docidsForValueRange id e.1 e.2 lo hi st en)
+    | _, _, _, _, _ => "bad-op"
   | ["inrange", lo, hi, rows] =>
     match lo.toNat?, hi.toNat?, parseRows rows with
     | some lo, some hi, some rows => showNatList (docsInRange id rows lo hi)
